@@ -339,13 +339,16 @@ async fn handle_stream_append(
         Err(e) => return response_400(e.to_string()),
     };
 
-    let frame = store.append(
+    let frame = match store.append(
         Frame::builder(topic, context_id)
             .maybe_hash(hash)
             .maybe_meta(meta)
             .maybe_ttl(ttl)
             .build(),
-    )?;
+    ) {
+        Ok(frame) => frame,
+        Err(e) => return response_for_store_error(e),
+    };
 
     Ok(Response::builder()
         .status(StatusCode::OK)
@@ -540,7 +543,9 @@ async fn handle_import(store: &mut Store, body: hyper::body::Incoming) -> HTTPRe
         Err(e) => return response_400(format!("Invalid frame JSON: {}", e)),
     };
 
-    store.insert_frame(&frame)?;
+    if let Err(e) = store.insert_frame(&frame) {
+        return response_for_store_error(e);
+    }
 
     Ok(Response::builder()
         .status(StatusCode::OK)
@@ -559,6 +564,17 @@ fn response_400(message: String) -> HTTPResult {
     Ok(Response::builder()
         .status(StatusCode::BAD_REQUEST)
         .body(body)?)
+}
+
+/// A request the store itself refuses (unknown context, xs.context outside the zero context,
+/// NUL in the topic, a frame that would not read back) is the client's error; only a failure
+/// of the storage engine is ours.
+fn response_for_store_error(e: crate::error::Error) -> HTTPResult {
+    if e.is::<fjall::Error>() || e.is::<std::io::Error>() {
+        response_500(e.to_string())
+    } else {
+        response_400(e.to_string())
+    }
 }
 
 fn response_500(message: String) -> HTTPResult {
